@@ -428,7 +428,7 @@ func c34Run(t *testing.T, r *verifrt.Run, h *c34History) c34Obs {
 func TestVerif_C34(t *testing.T) {
 	r := verifrt.Start(t, "C34")
 	defer r.Finish()
-	r.Rule("case = a true timeline of 1-5 membership facts over 1-3 peers (+ hostile facts naming the local node, + epochs of other reasons), 1-5 rebalance epochs with unordered ids, each possibly never completing or completing late, delivered as real JSON notifications to handleClusterEvent of a fresh never-started *cluster with duplicates / swaps / full shuffle, overdue timeout as a logical input (emitOverdueNodeLeft) only after the departure was tracked; Events() drained after every input. Oracle: at-most-once automata per node (NodeLeft re-armed by a join notification or NodeJoined output, NodeJoined re-armed by a left notification or NodeLeft output), no event naming the local node, no event for a node without notification, and every NodeLeft(n) emitted either during the timeout input of n or after delivery of a rebalance-complete of an epoch started at or after that departure in the true timeline. non-trivial = >=1 event emitted and >=4 inputs; distinct by delivered history text")
+	r.Rule("case = a true timeline of 1-5 membership facts over 1-3 peers (+ hostile facts naming the local node, + epochs of other reasons), 1-5 rebalance epochs with unordered ids, each possibly never completing or completing late, delivered as real JSON notifications to handleClusterEvent of a fresh never-started *cluster with duplicates / swaps / full shuffle, overdue timeout as a logical input (emitOverdueNodeLeft) only after the departure was tracked; Events() drained after every input. Oracle: at-most-once automata per node (NodeLeft re-armed by a join notification or NodeJoined output, NodeJoined re-armed by a left notification or NodeLeft output), no event naming the local node, no event for a node without notification, and every NodeLeft(n) emitted either during the timeout input of n or after delivery of a rebalance-complete of an epoch started at or after that departure in the true timeline (the k-th NodeLeft(n) is credited to the k-th true departure of n, the most lenient reading under reordering). non-trivial = >=1 event emitted and >=4 inputs; distinct by delivered history text")
 	r.Assume("an epoch covers a departure iff it was started, in the true timeline, by that departure or by a later fact (its routing table no longer contains the node); completion of any such epoch, whatever its reason, counts as settled")
 	rng := r.Rand(1)
 	n := r.N(20000, 400000)
